@@ -51,6 +51,25 @@ pub enum Step {
     Hold { h: String, c: usize, call: CallSpec },
     /// Drives the held calls to completion.
     Release {},
+    /// Grants `turns` passes at a schedule point of the server ("s.turn", "t.turn",
+    /// "s.del.remove"); a negative number opens the point.
+    Gate { name: String, turns: i64 },
+    /// Records a `quiet` event if the server stays completely idle for a virtual millisecond.
+    Quiet {},
+}
+
+/// Emits `quiet` when nothing was recorded while the paused clock advanced by one millisecond:
+/// the clock only advances when no task is runnable, so the state after the last recorded
+/// event is a state of rest.
+pub async fn quiet(world: &Arc<World>) {
+    for _ in 0..5 {
+        let before = world.rec.seq();
+        tokio::time::sleep(Duration::from_millis(1)).await;
+        if world.rec.seq() == before {
+            world.ev("quiet", json!({}));
+            return;
+        }
+    }
 }
 
 pub async fn settle() {
@@ -69,6 +88,8 @@ pub async fn run_scenario(scenario: &Scenario, out: Option<Out>) -> Vec<Value> {
     let streaming = out.is_some();
     let light = scenario.meta.get("light").and_then(|v| v.as_bool()).unwrap_or(false);
     deltio::verif::set_local_light(light);
+    let gate = Arc::new(crate::gate::Gate::new());
+    deltio::verif::install_local_controller(Some(gate.clone()));
     let world = World::start(scenario.cap, scenario.phase, out).await;
     let mut calls: HashMap<String, (usize, tokio::task::JoinHandle<()>)> = HashMap::new();
     let mut streams: HashMap<String, StreamHandle> = HashMap::new();
@@ -169,6 +190,11 @@ pub async fn run_scenario(scenario: &Scenario, out: Option<Out>) -> Vec<Value> {
                     held.push(hd);
                 }
             }
+            Step::Quiet {} => quiet(&world).await,
+            Step::Gate { name, turns } => {
+                world.ev("mark", json!({"name": format!("gate {} {}", name, turns)}));
+                gate.set(&name, if turns < 0 { None } else { Some(turns as usize) });
+            }
             Step::Release {} => {
                 for hd in held.drain(..) {
                     crate::libcall::release(&world, hd).await;
@@ -177,6 +203,9 @@ pub async fn run_scenario(scenario: &Scenario, out: Option<Out>) -> Vec<Value> {
         }
     }
 
+    gate.set("s.turn", None);
+    gate.set("t.turn", None);
+    gate.set("s.del.remove", None);
     for hd in held.drain(..) {
         crate::libcall::release(&world, hd).await;
     }
@@ -195,6 +224,7 @@ pub async fn run_scenario(scenario: &Scenario, out: Option<Out>) -> Vec<Value> {
         events.extend(world.take_events());
     }
     deltio::verif::install_local(None);
+    deltio::verif::install_local_controller(None);
     deltio::verif::set_local_light(false);
     events
 }
